@@ -228,7 +228,7 @@ class GEXTest:
                 kex_group.recv_reply(s, False)
                 smallest_modulus = kex_group.get_dh_modulus_size()
                 out.d('GEXTest._send_init(%s, %u, %u, %u): received modulus size: %d' % (gex_alg, min_bits, pref_bits, max_bits, smallest_modulus), write_now=True)
-        except KexDHException as e:
+        except (KexDHException, struct.error, ValueError, IndexError) as e:  # A malformed group or reply raises parsing errors other than KexDHException.
             out.d('GEXTest._send_init(%s, %u, %u, %u): exception when performing DH group exchange init: %s' % (gex_alg, min_bits, pref_bits, max_bits, str(e)), write_now=True)
         finally:
             s.close()
